@@ -26,3 +26,63 @@ fn(A + '.stringify:RepeaterNumber', props=['C02'],
             ' padded(result, spec_counter(state.repeaters[len(state.repeaters) - 1].value + 1, '
             '                             state.repeaters[len(state.repeaters) - 1].count, token.base, token.reverse), token.size))'],
    modifies=[])
+
+# ---------------------------------------------------------------------------------------
+# implicit tag names (C01, last sentence)
+# ---------------------------------------------------------------------------------------
+M = 'emmet.markup'
+cls(A + '.convert:Abbreviation', fields={'type': 'str', 'children': 'list[AbbreviationNode]'})
+cls(A + '.convert:AbbreviationNode',
+    fields={'type': 'str', 'name': 'str|None', 'value': 'any', 'repeat': 'any', 'attributes': 'any',
+            'children': 'list[AbbreviationNode]', 'self_closing': 'any'})
+cls('emmet.config:Config',
+    fields={'type': 'any', 'syntax': 'any', 'variables': 'map', 'snippets': 'map', 'options': 'map',
+            'user_config': 'map', 'context': 'any', 'cache': 'any'})
+fn('emmet.config:Config.get', trusted=True, props=['C01', 'C20'],
+   params={'self': 'Config', 'key': 'str'}, returns='any', requires=[], ensures=[], modifies=[],
+   note='uses dir()/__getattribute__ reflection: opaque read of a configuration attribute')
+fn(M + '.implicit_tag:lowercase', inline=True, pure=True, props=['C01'])
+fn('emmet.output_stream:is_inline', inline=True, pure=True, props=['C01'])
+
+define('is_node', ['x'], 'isinstance(x, AbbreviationNode)')
+
+fn(M + '.implicit_tag:get_parent_element', props=['C01'],
+   params={'ancestors': 'list[AbbreviationNode|Abbreviation]'}, returns='AbbreviationNode|None',
+   requires=[],
+   # the closest element node: the last AbbreviationNode of the ancestor list
+   ensures=['implies(result is None, forall(0, len(ancestors), lambda k: not is_node(ancestors[k])))',
+            'implies(result is not None, exists(0, len(ancestors), lambda j: ancestors[j] is result and '
+            '        forall(j + 1, len(ancestors), lambda k: not is_node(ancestors[k]))))'],
+   modifies=[],
+   loops={0: {'anchor': 'while i >= 0',
+              'invariant': ['-1 <= i', 'i <= len(ancestors) - 1',
+                            'forall(i + 1, len(ancestors), lambda k: not is_node(ancestors[k]))'],
+              'decreases': 'i + 1'}})
+
+# the documented implicit names, taken from the statement; p is the lower-cased name of the closest
+# element ancestor (or the context name).  Parents the code maps beyond the statement (colgroup, audio,
+# video, object, map) are left unconstrained.
+define('implicit_ok', ['name', 'p', 'config'],
+       "implies(p == 'ul' or p == 'ol', name == 'li') and "
+       "implies(p == 'table' or p == 'tbody' or p == 'thead' or p == 'tfoot', name == 'tr') and "
+       "implies(p == 'tr', name == 'td') and "
+       "implies(p == 'select' or p == 'optgroup', name == 'option') and "
+       "implies(p == 'p', name == 'span') and "
+       "implies(not (p in ELEMENT_MAP), name == ('span' if is_inline(p, config) else 'div'))")
+
+fn(M + '.implicit_tag:resolve_implicit_tag', props=['C01'],
+   params={'node': 'AbbreviationNode', 'ancestors': 'list[AbbreviationNode|Abbreviation]', 'config': 'Config'},
+   returns='none',
+   requires=[],
+   # `parent` and `parent_name` are the function's own locals: the closest element ancestor (callee contract
+   # of get_parent_element) and its lower-cased name (or the lower-cased context name)
+   lemmas=['parent is None or exists(0, len(ancestors), lambda j: ancestors[j] is parent and '
+           '       forall(j + 1, len(ancestors), lambda k: not is_node(ancestors[k])))'],
+   ensures=['node.name is not None',
+            "implies(parent_name == 'ul' or parent_name == 'ol', node.name == 'li')",
+            "implies(parent_name == 'table' or parent_name == 'tbody' or parent_name == 'thead' or parent_name == 'tfoot', node.name == 'tr')",
+            "implies(parent_name == 'tr', node.name == 'td')",
+            "implies(parent_name == 'select' or parent_name == 'optgroup', node.name == 'option')",
+            "implies(parent_name == 'p', node.name == 'span')",
+            "implies(not (parent_name in ELEMENT_MAP), node.name == ('span' if is_inline(parent_name, config) else 'div'))"],
+   modifies=['node.name'], allocates=True)
